@@ -96,11 +96,16 @@ int main(int argc, char** argv) {
     if (argv[2][0] == 'x') {
       for (uint16_t i = 0; i < zonedbxgen::kZoneRegistrySize; i++) if (!strcmp(zonedbxgen::kZoneRegistry[i]->name, argv[3])) {
         { ExtendedZoneProcessor p; askExtended(p, zonedbxgen::kZoneRegistry[i], year, true); }
-        if (!g_viol) { ExtendedZoneProcessor p; for (int y = 1998; y <= 2052; y++) askExtended(p, zonedbxgen::kZoneRegistry[i], y, false); }
+        if (!g_viol) {   // the same walk as the sweep: up, then down in steps of three
+          ExtendedZoneProcessor p;
+          for (int y = 1998; y <= 2052 && !g_viol; y++) askExtended(p, zonedbxgen::kZoneRegistry[i], y, false);
+          for (int y = 2052; y >= 1998 && !g_viol; y -= 3) askExtended(p, zonedbxgen::kZoneRegistry[i], y, false);
+        }
       }
     } else {
       for (uint16_t i = 0; i < zonedbgen::kZoneRegistrySize; i++) if (!strcmp(zonedbgen::kZoneRegistry[i]->name, argv[3])) {
-        BasicZoneProcessor p; askBasic(p, zonedbgen::kZoneRegistry[i], year);
+        { BasicZoneProcessor p; askBasic(p, zonedbgen::kZoneRegistry[i], year); }
+        if (!g_viol) { BasicZoneProcessor p; for (int y = 1998; y <= 2052 && !g_viol; y++) askBasic(p, zonedbgen::kZoneRegistry[i], y); }
       }
     }
     printf("GENM3 zones=1 checks=%lu violations=%lu\n", g_checks, g_viol);
